@@ -77,16 +77,29 @@ Definition l2_reader_u k := tables_eqb (read_file the_guard false false (u_out k
 Definition unphased_all k := okb (u_read k) (forallb (fun tb => forallb (fun rw =>
    forallb (fun p => match p with None => true | Some _ => false end) (row_phases rw)) (snd tb))).
 
+(* r_reads: the reads `whatshap phase base.vcf phased.vcf` worked with, per (chromosome, sample column), from its trace *)
 Record rstep := mkRStep { r_samples : list nat; r_base : res tabs; r_orig : res tabs; r_re : res tabs;
-  r_inset : list (nat * list Z); r_reads : list (nat * list (list (Z * nat))) }.
+  r_reads : list (token * nat * list (list (Z * nat))) }.
 Definition reproduced k := match r_base k, r_orig k, r_re k with
   | Ok b, Ok o, Ok r => tables_reproduce (r_samples k) b o r | _, _, _ => false end.
+Definition find_tab (l : tabs) (c : token) : list row :=
+  match find (fun e => fst e =? c) l with Some e => snd e | None => [] end.
+(* L2 for phased_blocks_as_reads: every read the real run used is a pseudo read of the model (same positions and
+   alleles), computed from the tables read back from the phased file and the heterozygous positions of base.vcf *)
+Definition l2_reads k := match r_base k, r_orig k with
+  | Ok b, Ok o =>
+    forallb (fun e => let '(c, i, rds) := e in
+       let model := map (fun x => map (fun v => (fst (fst v), snd (fst v))) (snd x))
+                        (blocks_as_reads (het_in (find_tab b c) i) i (find_tab o c)) in
+       forallb (fun rd => existsb (fun m => list_eqb (pair_eqb Z.eqb Nat.eqb) rd m) model) rds
+       && (length model =? length rds)%nat) (r_reads k)
+  | _, _ => false end.
 """
 P_CHECKS = {k: k for k in ["l2_writer_PS", "l2_writer_HP", "l2_reader_PS", "l2_reader_HP", "readable_PS", "readable_HP",
                            "decode_PS_ok", "decode_HP_ok", "quality_PS", "quality_HP", "nostale_PS", "nostale_HP", "equiv",
                            "fixed_ok"]}
 U_CHECKS = {k: k for k in ["l2_unphase", "l2_reader_u", "unphased_all"]}
-R_CHECKS = {"reproduced": "reproduced"}
+R_CHECKS = {"reproduced": "reproduced", "l2_reads": "l2_reads"}
 
 ERRMAP = {"AttributeError": "EAttr", "MixedPhasingError": "EMixed", "ValueError": "EValue", "AssertionError": "EAssert",
           "IndexError": "EIndex", "KeyError": "EKey", "VcfNotSortedError": "EUnsorted"}
@@ -389,7 +402,9 @@ def build_cases(ctx, results, inputs):
                     known = "object has no attribute 'split'" in se
                     if known:
                         ctx.tally("reinput.hp_none_crash")
-                    if known and ctx.dist.get("reinput.hp_none_crash", 0) <= 1:
+                    if known and ctx.dist.get("reinput.hp_none_crash", 0) > 1:
+                        pass
+                    elif known:
                         ctx.violation("vcfreader:hp-none-crash",
                                       "`whatshap phase base.vcf phased.vcf` dies reading the phased VCF written by "
                                       f"phase --tag {tag} (HP value read back as (None,)): " + desc + " :: " + se[-160:], replay)
@@ -400,8 +415,14 @@ def build_cases(ctx, results, inputs):
                     continue
                 rb_base = read_back(os.path.join(d, "base.vcf"))
                 rb_re = read_back(os.path.join(d, re_path))
+                rreads = []
+                rt = os.path.join(d, f"retrace{rec['step'] + 1}.jsonl")
+                for ln in (json.loads(x) for x in open(rt)) if os.path.exists(rt) else []:
+                    if len(ln["family"]) == 1:
+                        rds = ["[" + "; ".join(f"({vcfabs._z(int(v[0]))}, {int(v[1])}%nat)" for v in r["variants"]) + "]" for r in ln["reads"]]
+                        rreads.append(f"({vcfabs._z(vcfabs.chrom_token(ln['chromosome'], it))}, {fin.samples.index(ln['family'][0])}%nat, [" + "; ".join(rds) + "])")
                 rterm = ("(mkRStep [" + "; ".join(f"{i}%nat" for i in range(len(fin.samples))) + "]\n " + tabs_term(rb_base, it) + "\n "
-                         + tabs_term(rbs[tag], it) + "\n " + tabs_term(rb_re, it) + " [] [])")
+                         + tabs_term(rbs[tag], it) + "\n " + tabs_term(rb_re, it) + "\n [" + ";\n ".join(rreads) + "])")
                 if rbs[tag][0] == "ok":
                     R.append({"term": rterm, "desc": desc + " + re-input of the " + tag + " output", "replay": replay})
     return P, U, R
@@ -481,6 +502,10 @@ def evaluate(ctx, P, U, R):
         if errors:
             raise RuntimeError("coq evaluation failed: " + errors[0][1])
         res["R"] = failing
+        if failing["l2_reads"]:
+            ctx.disagreements_checked += len(failing["l2_reads"])
+            ctx.l2_disagreement("VcfRecord.blocks_as_reads = reads used by `whatshap phase base.vcf phased.vcf` (L2)",
+                                [R[i]["desc"] for i in failing["l2_reads"]])
         for i in failing["reproduced"][:3]:
             ctx.violation("phaseinput:set-not-reproduced",
                           "phasing with the phased VCF as only input does not reproduce a phase set with >= 2 shared heterozygous variants :: "
